@@ -104,4 +104,21 @@ good &= run("strict expand swallows the hook's rejection (C07 view: expand_stric
 good &= run("strict expand swallows the hook's rejection", True, pid="C08")
 C.expand = orig_ex
 good &= run("unchanged library accepted (C08 clauses)", False, pid="C08")
+
+# 5. the pair methods start consulting the hook (expand_pair standardises the identifier first)
+orig_er = C.expand_reference
+
+
+def expand_reference(self, reference, *, strict=False, passthrough=False):
+    np = self.standardize_prefix(reference.prefix)
+    if np is not None:
+        ni = self.standardize_identifier(np, reference.identifier)
+        if ni is not None:
+            reference = ReferenceTuple(reference.prefix, ni)
+    return orig_er(self, reference, strict=strict, passthrough=passthrough)
+
+
+C.expand_reference = expand_reference
+good &= run("expand_pair / expand_reference consult the hook", True)
+C.expand_reference = orig_er
 sys.exit(0 if good else 1)
